@@ -16,6 +16,10 @@ def block(txt, name):
     return re.search(r'/-- control skeleton of [^\n]*\ndef ' + re.escape(name) + r' : List \(String × String\) := \[\n.*?\n\]\n', txt, re.S)
 for name in sys.argv[1:]:
     g, e = block(gen, name), block(exp, name)
+    if g and not e:  # a function newly added to translator/skeleton.go: append its block
+        end = exp.rindex("end LiteFSVerif.Expected.Skel")
+        exp = exp[:end] + g.group(0) + "\n" + exp[end:]
+        print("added:", name); continue
     if not g or not e:
         print("not found:", name); sys.exit(1)
     if g.group(0) == e.group(0):
